@@ -50,8 +50,8 @@ Sends == {[k |-> "send", all |-> FALSE, sent |-> Mon(as, n), src |-> s, dst |-> 
 \* send-all: plain accounts, and an allotment below a cap (legal there)
 SendAlls == {[k |-> "send", all |-> TRUE, sent |-> Ast(S), src |-> s, dst |-> LeafA("x")] :
                s \in { LeafA("a"), [k |-> "seq", s |-> <<LeafA("a"), LeafA("b")>>],
-                       [k |-> "seq", s |-> <<LeafA("b"), [k |-> "cap", c |-> Mon(S, 10), s |-> [k |-> "allot", it |-> <<[p |-> [k |-> "portion", n |-> 1, d |-> 2], s |-> LeafA("a")],
-                                                                                                              [p |-> [k |-> "remaining"], s |-> LeafA("b")]>>]]>>],
+                       [k |-> "cap", c |-> Mon(S, 10), s |-> [k |-> "allot", it |-> <<[p |-> [k |-> "portion", n |-> 1, d |-> 2], s |-> LeafA("a")],
+                                                                                [p |-> [k |-> "remaining"], s |-> LeafA("b")]>>]],
                        [k |-> "ovd", e |-> Acc("a"), b |-> Mon(S, 15)] }}
 Saves == {[k |-> "save", all |-> FALSE, sent |-> Mon(as, 1), e |-> Acc("a")] : as \in {S, O}}
     \cup {[k |-> "save", all |-> TRUE, sent |-> Ast(as), e |-> Acc("a")] : as \in {S, O}}
